@@ -130,6 +130,11 @@ func c03SchedRun(rep *common.Report, procs int) (exhaustive bool, diverged int) 
 			jobs = append(jobs, sched.Job{Scenario: n, Preempt: pre, Data: 1, Sched: sd, ShardI: s, ShardN: shards, BudgetS: budget})
 		}
 	}
+	totalBudget := 45.0
+	if common.Tier() == "thorough" {
+		totalBudget = 900
+	}
+	sched.SpreadBudget(jobs, totalBudget, procs, 15)
 	tot := sched.RunAll(rep, jobs, []string{"C03", "schedworker"}, procs)
 	rep.Set("sched_executions", tot.Executions)
 	rep.Set("sched_distinct_outcomes", len(tot.Outcomes))
